@@ -191,7 +191,7 @@ func TestC27_PruningKeepsRetainedState(t *testing.T) {
 		c := vChain()
 		c.stateDB = db
 		c.SetupStateCache()
-		window := rapid.IntRange(1, 40).Draw(t, "pruneWindow")
+		window := rapid.SampledFrom([]int{1, 2, 3, 7, 1, 2, 15, 40, 3, 25}).Draw(t, "pruneWindow")
 		conf := c.ChainConfig.(*ConfigImpl)
 		conf.conf.PruneStateBelowCount = window
 		conf.conf.MinGenerators = 1
@@ -409,6 +409,28 @@ func TestC27_PruningKeepsRetainedState(t *testing.T) {
 				fp = append(fp, "rollback", hex.EncodeToString(nbR.b.ClientStateHash[:4]))
 				finalizeNext()
 				st.Class("finalized-block-rolled-back/" + tagR)
+				if window <= 3 && rapid.Bool().Draw(t, "quietThenPrune") {
+					// a few blocks that change nothing, then a prune right above the rolled-back round: whatever the
+					// abandoned block had replaced is still part of every retained state
+					for q := 0; q < window; q++ {
+						qb := build(chain[len(chain)-1], "main-empty")
+						chain = append(chain, qb)
+						fp = append(fp, "quiet")
+						finalizeNext()
+					}
+					v := nbR.b.Round + 1
+					if v <= chain[lfbIdx].b.Round-int64(window)+1 && v > r0 {
+						if err := db.PruneBelowVersion(ctx, v); err != nil {
+							t.Fatalf("VERIF-HARNESS-ERROR PruneBelowVersion: %v", err)
+						}
+						if v > pruned {
+							pruned = v
+						}
+						prunes++
+						st.Class("prune/right-above-a-rolled-back-round")
+						verify(fmt.Sprintf("after PruneBelowVersion(%d) right above the rolled-back round %d", v, nbR.b.Round))
+					}
+				}
 				continue
 			}
 			nb := build(tip, "main")
